@@ -241,6 +241,15 @@ def run_unit(name, repo, scratch, with_canaries=True, jobs=8):
         with concurrent.futures.ThreadPoolExecutor(max_workers=jobs) as ex:
             result['canaries'] = list(ex.map(one, unit.canaries))
         # a canary whose pattern no longer exists (code changed under it) is skipped, not fatal
+        # ... and so is a canary planted in a function whose body changed under the contract (its text differs
+        # from the pinned text) or that already fails on this tree: the one-token mutation may add no NEW
+        # failure there.  The canary proves the contract's strength on the pinned text only.
+        changed = set(result.get('changed_functions') or [])
+        failing = set(f['fn'] for f in result['failures'])
+        for c in result['canaries']:
+            if c['status'] == 'ACCEPTED' and (c['fn'] in changed or c['fn'] in failing):
+                c['status'] = 'lost'
+                c['note'] = 'not applicable: the function changed / already fails on this tree'
         bad = [c for c in result['canaries'] if c['status'] not in ('rejected', 'lost')]
         if bad:
             result['status'] = 'broken' if any(c['status'] == 'ACCEPTED' for c in bad) else 'inconclusive'
